@@ -3,7 +3,7 @@ DDPRun has no notion of optimisation or link mode: there is one behaviour per pr
 under {O0,O1,O2} x {modules linked, not linked} x {list definitions linked, not linked}; the observation of every configuration is
 validated by DDPRunTrace against the one behaviour the semantics assigns, hence all configurations agree with each other."""
 import bisect
-import vlib, ddp, semrun, semgen
+import vlib, ddp, semrun, semgen, corpus
 from vlib import Check, Infra
 
 CFGS = ("LL", "LU", "UU")
@@ -69,6 +69,10 @@ def run(tier):
         ck.fail(key, "configuration %s: case %s behaves differently from the one behaviour of the program: expected %r, observed code=%s %r" % (
             ev["cfg"], batches[bi][ci].key, semrun._around(etext, ci), ev["code"], semrun._around(otext, ci)),
             dict(case=batches[bi][ci].key, cfg=ev["cfg"], expected=etext, observed=otext, source=srcs[bi]))
+    cc = corpus.check_semantics(ck, (0, 2) if tier == "quick" else (0, 1, 2), "corpus", subset=("kddp" if tier == "quick" else "all"))
+    ck.cov["corpus"] = cc
+    ck.cov["evaluations"] += cc["validated_observations"]
+    ck.cov["traces_validated_against_impl"] += cc["validated_observations"]
     ck.sample(dict(program=progs[0]["id"], cases=[c.key for c in batches[0]][:5], configurations=ck.cov["configurations"]))
     ck.cov["rule"] = "each specified case (copy matrix, statement skeletons, operator table, text histories; quick: seeded sample of the last two) x 9 configurations"
     ck.assumptions += ["'modules not linked' is realised by compiling Duden/Ausgabe on its own, localising its ddp_ddpmain with objcopy and linking all objects; "
